@@ -197,6 +197,7 @@ class Explorer:
         self.count = 0
         self.opaque_calls = opaque_calls
         self.prune = True
+        self.iterations_all = {}
         self.iterations = {}          # id(loop node) -> (loop node, index of the first event of the iteration, [PathState])
 
     def _value(self, expr, st, node):
@@ -342,7 +343,8 @@ class Explorer:
                 st.events.append(Event("loop", s, resolve(s.test, st), None))
             start = len(st.events)
             inner = self.block(s.body, [st.fork()])
-            self.iterations[id(s)] = (s, start, inner)
+            self.iterations.setdefault(id(s), (s, start, inner))
+            self.iterations_all.setdefault(id(s), []).append((s, start, inner))     # one entry per state that reaches the loop
             out = []
             for p in inner:
                 if p.status in ("return", "raise"):
